@@ -18,7 +18,9 @@ CFG = {
     "rule": "exhaustive over 16 base documents (maximal component / composite buildpack.toml, buildpack plan, launch.toml, layer metadata, "
             "store.toml, package.toml, a target; and the empty documents) x 10 libcnb types: every single-point mutation (2 undefined keys in every "
             "table incl. free-form ones, delete every key, delete every array element, retype every value 2-4 ways, add order/targets/stacks "
-            "empty and non-empty), every key subset of every table outside metadata, and every single-point mutation of 10 (quick) / 120 "
+            "empty and non-empty; every `uri` value of package.toml replaced by 16 valid spellings not in RFC 3986 normal form that must come back verbatim, "
+            "12 spellings uriparse re-prints at parse time (known finding C08-F4) and 10 invalid references; a struct as a positional array, a string as "
+            "{ s = {} } / { s = [] } / { s = \"x\" }), every key subset of every table outside metadata, and every single-point mutation of 10 (quick) / 120 "
             "(thorough) seeded subset documents; thorough adds sampled two-point mutations. non-trivial = anything but an unmodified base "
             "document; distinct = distinct (type, document)",
     "exhaustive": True,
